@@ -168,7 +168,7 @@ theorem splitSignature_attached (H : List UInt8 → List UInt8) (first : Bool) (
     rw [if_neg (by omega)]
     have e1 : bits.length + 512 - 512 = bits.length := by omega
     rw [e1, List.take_left', List.drop_left']
-    · simp [Cell.hashO?, hdep, bind, Outcome.bind, pure, bitsToBytes_bytesToBits]
+    · simp [Cell.hashO?, hdep, bind, Outcome.bind, pure, bitsToBytes_bytesToBits_co]
     · rfl
     · rfl
   · -- signature first
@@ -178,7 +178,7 @@ theorem splitSignature_attached (H : List UInt8 → List UInt8) (first : Bool) (
     have hd : List.drop 512 (bytesToBits sig ++ bits) = bits := by rw [← hl, List.drop_left]
     have ht : List.take 512 (bytesToBits sig ++ bits) = bytesToBits sig := by rw [← hl, List.take_left]
     rw [hd, ht]
-    simp [Cell.hashO?, hdep, bind, Outcome.bind, pure, bitsToBytes_bytesToBits]
+    simp [Cell.hashO?, hdep, bind, Outcome.bind, pure, bitsToBytes_bytesToBits_co]
 
 /-! ### the envelope -/
 
@@ -340,7 +340,7 @@ def attached (v : Version) (sig : List UInt8) (c : Cell) : Cell :=
 theorem attached_size (v : Version) (sig : List UInt8) (c : Cell) :
     (attached v sig c).bits.length = c.bits.length + 8 * sig.length ∧ (attached v sig c).refs = c.refs := by
   unfold attached
-  split <;> simp only [Cell.bits_ordinary, Cell.refs_ordinary, List.length_append, bytesToBits_length, and_true] <;> omega
+  split <;> simp only [Cell.bits_ordinary, Cell.refs_ordinary, List.length_append, bytesToBits_length_co, and_true] <;> omega
 
 theorem decodeBody_attached (v : Version) (hf : v.family = .v3 ∨ v.family = .v4 ∨ v.family = .v5r1 ∨ v.family = .v5beta)
     (ids : BodyIds) (hids : ids.WF) (op seqno vu : Nat) (hop : op = opSignedExternal ∨ op = opSignedInternal)
